@@ -1,13 +1,12 @@
 (* Driver for the front-end models (C02, C03, C08, C15).
-   case : <id> FRONT <mode F|L> <tokens> <convs>
-          tokens = ty.hexlit.ws.nl,...      convs = hexlit.(i<dec>|ie).(f<u64>|fe),... | -
-   out  : <id> E=<kinds|-> K=<0|1> [TREE=<dump> N=<hex|PANIC|SKIP> C=<..> P=<..>]   | <id> PANIC <n> | <id> FUEL
-   kinds: P (peekError) X (no prefix fn) F (float) L (lambda params), in order of occurrence *)
-let parse_tok (s : string) : ptok =
-  match String.split_on_char '.' s with
-  | [ty; lit; ws; nl] -> { pk = { ttype = z_of_string ty; tlit = bytes_of_hex lit }; pk_ws = (ws = "1"); pk_nl = (nl = "1") }
-  | _ -> failwith ("bad token " ^ s)
-
+   case : <id> FRONT <mode F|L> <hex src> <convs>      convs = hexlit.(i<dec>|ie).(f<u64>|fe),... | -
+   out  : <id> E=<kinds|-> K=<0|1> [TREE=<dump> W=<nil_free 0|1> N=<hex|PANIC|U> C=<..> P=<..>]
+          | <id> PANIC comment|nil | <id> FUEL
+          kinds: P (peekError) X (no prefix fn) F (float) L (lambda params), in order of occurrence
+   case : <id> RT <hex src> <convs>
+   out  : <id> N=<same|differs|rejected|printpanic|notclean|U> C=<...>
+   case : <id> FMT2 <hex src> <convs>       (C03: format twice)
+   out  : <id> N=<hex of f(src)>|<hex of f(f(src))> C=<...>   or notclean / U *)
 let mk_conv (s : string) : numconv =
   let tbl = Hashtbl.create 16 in
   if s <> "-" then
@@ -23,34 +22,69 @@ let mk_conv (s : string) : numconv =
 
 let kind_of = function EPeek (_, _) -> "P" | ENoPrefix _ -> "X" | EFloat -> "F" | ELambdaParam -> "L"
 
-let rec strings_ok (n : node option) : bool = true
-
 let print_mode compact allparens stmts =
   match print_program compact allparens stmts with
   | None -> "PANIC"
   | Some b -> hex_of_bytes b
 
-let front_line (id : string) (mode : string) (toks : string) (convs : string) : string =
-  let tl = if toks = "-" then [] else List.map parse_tok (split_on ',' toks) in
-  let conv = mk_conv convs in
-  let endty = if mode = "L" then token_EOL else token_EOF in
-  match parse_program conv (default_fuel tl) endty tl with
+let strings_in_domain (mode : bool) (src : n list) : bool =
+  List.for_all (fun t -> t.pk.ttype <> token_STRING || quote_in_domain t.pk.tlit) (front_tokens mode src)
+
+let nospace s = String.concat "" (String.split_on_char ' ' s)
+
+let front_line (id : string) (mode : string) (src : string) (convs : string) : string =
+  let lm = (mode = "L") in
+  let b = bytes_of_hex src in
+  match front_parse (mk_conv convs) lm b with
   | PPanic PanicCommentSameLine -> id ^ " PANIC comment"
   | PPanic PanicNilDeref -> id ^ " PANIC nil"
   | POutOfFuel -> id ^ " FUEL"
   | POk r ->
     let kinds = if r.pr_errs = [] then "-" else String.concat "," (List.map kind_of r.pr_errs) in
     let head = Printf.sprintf "%s E=%s K=%d" id kinds (if r.pr_cont then 1 else 0) in
-    if r.pr_errs <> [] || r.pr_cont then head
-    else if not (List.for_all (fun t -> t.pk.ttype <> token_STRING || quote_in_domain t.pk.tlit) tl) then
-      Printf.sprintf "%s TREE=%s N=U C=U P=U" head (String.concat "" (String.split_on_char ' ' (dump_list (Some r.pr_tree))))
+    if not (clean r) then head
     else
-      Printf.sprintf "%s TREE=%s N=%s C=%s P=%s" head
-        (String.concat "" (String.split_on_char ' ' (dump_list (Some r.pr_tree))))
-        (print_mode false false r.pr_tree) (print_mode true false r.pr_tree) (print_mode true true r.pr_tree)
+      let tree = nospace (dump_list (Some r.pr_tree)) in
+      let w = if program_nil_free r.pr_tree then 1 else 0 in
+      if not (strings_in_domain lm b) then Printf.sprintf "%s TREE=%s W=%d N=U C=U P=U" head tree w
+      else Printf.sprintf "%s TREE=%s W=%d N=%s C=%s P=%s" head tree w
+          (print_mode false false r.pr_tree) (print_mode true false r.pr_tree) (print_mode true true r.pr_tree)
+
+let rt_name = function
+  | RtSame -> "same" | RtDiffers -> "differs" | RtRejected -> "rejected" | RtPrintPanic -> "printpanic" | RtNotClean -> "notclean"
+
+let rt_line id src convs =
+  let b = bytes_of_hex src in
+  if not (strings_in_domain false b) then id ^ " N=U C=U"
+  else
+    let conv = mk_conv convs in
+    Printf.sprintf "%s N=%s C=%s" id (rt_name (fst (roundtrip conv false b))) (rt_name (fst (roundtrip conv true b)))
+
+(* format twice: f(src) and f(f(src)) in one mode *)
+let fmt2 conv compact (b : n list) : string =
+  match front_parse conv false b with
+  | POk r when clean r ->
+    (match print_program compact false r.pr_tree with
+     | None -> "printpanic"
+     | Some t1 ->
+       (match front_parse conv false t1 with
+        | POk r2 when clean r2 ->
+          (match print_program compact false r2.pr_tree with
+           | None -> hex_of_bytes t1 ^ "|printpanic"
+           | Some t2 -> hex_of_bytes t1 ^ "|" ^ hex_of_bytes t2)
+        | _ -> hex_of_bytes t1 ^ "|rejected"))
+  | _ -> "notclean"
+
+let fmt2_line id src convs =
+  let b = bytes_of_hex src in
+  if not (strings_in_domain false b) then id ^ " N=U C=U"
+  else let conv = mk_conv convs in
+    Printf.sprintf "%s N=%s C=%s" id (fmt2 conv false b) (fmt2 conv true b)
 
 let () = iter_lines (fun line ->
   match split_on ' ' line with
-  | [id; "FRONT"; mode; toks; convs] -> print_endline (front_line id mode toks convs)
+  | [id; "FRONT"; mode; src; convs] -> print_endline (front_line id mode src convs)
+  | [id; "RT"; src; convs] -> print_endline (rt_line id src convs)
+  | [id; "FMT2"; src; convs] -> print_endline (fmt2_line id src convs)
   | id :: _ -> print_endline (id ^ " BADCASE")
   | [] -> ())
